@@ -52,7 +52,7 @@ def main():
     ctx = core.Ctx(a.prop, tier, seed, a.replay)
     try:
         mod = importlib.import_module(f"checks.{a.prop.lower()}")
-        ctx.lean = core.lean_obligations(a.prop, getattr(mod, "EXTRA_TARGETS", ()))
+        ctx.lean = core.lean_obligations(a.prop, getattr(mod, "EXTRA_TARGETS", ()), recheck=ctx.thorough)
         if a.replay:
             data = json.loads(open(a.replay).read())
             mod.replay(ctx, data)
